@@ -21,7 +21,26 @@ FILLERS = [
     "", " ", "  ", "\t", "\n", "\n\n", "\n\n\n", "\n    ", " # c\n", "\n# c\n", " /* c */ ", "\n/* c */\n",
     " /** d */ ", " /* m\n   n */ ", "\n\n# é\n\n", "\n  # c\n  # d\n",
     " # c\n\n", "\n# c\n\n# d\n", "\r\n", "\r\n\r\n", "\n\x0c\n",
+    # comments of both kinds in one gap: a line comment, then a block comment on the line of the next token (and the reverse)
+    " # c\n  /* d */ ", "\n/* c */ # d\n",
 ]
+
+# comment texts whose wording is easy to damage: delimiters' own characters at either end, empty bodies, nested-looking openers,
+# hash runs, no padding, unicode, trailing spaces (gap 'comment wording' of C03)
+COMMENT_WORDINGS = [
+    "# c", "#c", "#", "## c", "#! c", "# c #", "# c  d", "#  c", "# é", "# /* c */", "# c*/",
+    "/* c */", "/*c*/", "/**/", "/* */", "/***/", "/** d */", "/**d*/", "/* c/*/", "/* c**/", "/* *c */", "/* /c */", "/*/ c */",
+    "/* c /* d */", "/* # c */", "/* c  d */", "/* é */", "/*  c  */", "/* c\n   d */", "/*\n  c\n*/", "/* c\n * d\n */",
+    "/*\n  c/\n*/", "/* c\n   d/*/", "/**\n  d\n*/", "/** d\n    e **/", "/* c\n\n   d */", "/*\tc\t*/",
+]
+WORDING_HOSTS = {
+    "own": "{\n  @C@\n  a = 1;\n}\n",
+    "eol": "{\n  a = 1; @C@\n}\n",
+    "inline": "{ a = @C@ 1; }\n",
+    "head": "@C@\n{ a = 1; }\n",
+    "list": "[\n  1\n  @C@\n  2\n]\n",
+    "let": "let\n  @C@\n  a = 1;\nin\na\n",
+}
 
 ATOMS = ["a", "1", '"s"', "./p", "true", "null", "1.5", "x.y", "[ ]", "{ }"]
 SUBS = ["{ x = 1; }", "[ 1 2 ]", "f x", "(a)", "let y = 1; in y", "x: x", "a + b", "if c then 1 else 2", "''\n  s\n''",
@@ -189,7 +208,7 @@ def norm_comment(text: str) -> str:
     if text.startswith("#"):
         return "#" + text[1:].strip()
     body = text
-    if body.startswith("/**"):
+    if body.startswith("/**") and len(body) >= 5:
         body = body[3:]
         kind = "/**"
     else:
@@ -405,6 +424,20 @@ def programs(tier: str, seed: int = 0):
                         seen.add(t2)
                         yield dict(id=f"{name}|{fid}|s{slot}|{FILLERS.index(f0)}|lead", text=t2, template=name, slot=slot, filler=f0,
                                    ctx=None, lead_of=text)
+    # comment wordings: the text inside a comment is the user's; only indentation and delimiter padding may be normalised (C03)
+    for host, tpl in WORDING_HOSTS.items():
+        for k, w in enumerate(COMMENT_WORDINGS):
+            if "\n" in w and host in ("eol", "inline"):
+                continue
+            if w.startswith("#") and host == "inline":
+                continue
+            text = tpl.replace("@C@", w)
+            if text in seen or has_error(parse_cst(text)):
+                continue
+            if [x for t, x, _s, _e in leaves(parse_cst(text)) if t == "comment"] != [w]:
+                continue  # the lexer does not read it as this one comment
+            seen.add(text)
+            yield dict(id=f"wording|{host}|w{k}", text=text, template=f"wording-{host}", slot="w", filler=None, wording=k)
     if tier == "thorough-multi":  # not used by the registered checks (see DESIGN.md: unstable known-finding signatures)
         rnd = random.Random(seed)
         bases = [b for b in base_programs("thorough")]
@@ -468,7 +501,7 @@ def gap_context(text: str, pos: int, length: int):
 def filler_class(f):
     if f is None:
         return "canon"
-    kind = ("line" if "#" in f else "doc" if "/**" in f else "block-multi" if ("/*" in f and "\n" in f.split("/*")[1].split("*/")[0])
+    kind = ("mixed" if "#" in f and "/*" in f else "line" if "#" in f else "doc" if "/**" in f else "block-multi" if ("/*" in f and "\n" in f.split("/*")[1].split("*/")[0])
             else "block" if "/*" in f else None)
     if kind:
         return f"comment-{kind}-" + ("own" if f.startswith("\n") else "inline")
@@ -483,6 +516,10 @@ _EXPR_END = {"identifier", "integer_expression", "float_expression", "path_fragm
 
 
 def signature(prog, symptom: str) -> str:
+    if prog.get("wording") is not None:
+        if symptom.endswith(":comment-body-drifts"):
+            return f"{symptom}|{filler_class(chr(10) + COMMENT_WORDINGS[prog['wording']] + chr(10))}"
+        return f"{symptom}|wording={COMMENT_WORDINGS[prog['wording']]!r}|host={prog['template'].split('-', 1)[1]}"
     if prog.get("ctx"):
         lca, prev, nxt = prog["ctx"]
         prev = "expr" if prev in _EXPR_END else prev
